@@ -5,24 +5,34 @@ import (
 	"time"
 
 	"github.com/uhn/ggql/pkg/ggql"
+
+	"verif/mc/sgen"
 )
 
-func try(s string) {
-	done := make(chan error, 1)
-	go func() {
-		root := ggql.NewRoot(nil)
-		done <- root.ParseString(s)
-	}()
-	select {
-	case err := <-done:
-		fmt.Printf("%q -> %v\n", s, err)
-	case <-time.After(2 * time.Second):
-		fmt.Printf("%q -> HANG\n", s)
-	}
+type dummy struct{}
+
+func (dummy) Resolve(field *ggql.Field, args map[string]interface{}) (interface{}, error) {
+	return dummy{}, nil
 }
 
 func main() {
-	for _, s := range []string{"\"a\"\ntype Query { i: Int }", "\x01", "type Query { i: Int }\n\x01", "#", "\"\"\"\n\\\n\"\"\"\ntype Query {i: Int}", "\"", "\\", "\"\"\"", "é", "type Query {i: Int} é", "1", "{", "}", "type", "(", "@", "!", "$", "=", "&", "|", ":", "[", ","} {
-		try(s)
+	for v := 0; v < 3; v++ {
+		root := ggql.NewRoot(dummy{})
+		_ = root.ParseString(sgen.Bases()[v].SDL())
+		t := time.Now()
+		for i := 0; i < 20; i++ {
+			_ = root.SDL(true, true)
+		}
+		fmt.Println(v, "SDL", time.Since(t)/20)
+		t = time.Now()
+		for i := 0; i < 20; i++ {
+			_, _ = sgen.FromRoot(root, []string{"tag"})
+		}
+		fmt.Println(v, "FromRoot", time.Since(t)/20)
+		t = time.Now()
+		for i := 0; i < 20; i++ {
+			_ = root.ResolveString(`{__schema{types{kind name fields(includeDeprecated:true){name args{name defaultValue type{kind name ofType{kind name ofType{kind name}}}} type{kind name ofType{kind name ofType{kind name}}}}}}}`, "", nil)
+		}
+		fmt.Println(v, "intro", time.Since(t)/20)
 	}
 }
